@@ -129,6 +129,15 @@ CHECKS = {
               'sortedness and determinism of the export.'),
         design_ref='DESIGN.md section 5 C20',
         note='The library evaluator is the reference here (C08 judges the evaluator itself).'),
+    'C16': dict(
+        category='exploration',
+        technique='Hypothesis proofs driven step by step with event listeners; history invariants after every step; independent trie of branches vs tab.tree',
+        text=('Random proofs are stepped through the public API with listeners on every event; after the trunk and after each step '
+              'the bookkeeping invariants of the property are checked against snapshots kept by the harness (prefix growth, '
+              'closed-branch immutability, open view, fork prefix, history growth, recorded step numbers, event counts), and the '
+              'finished tree / stats are compared with an independently built trie and counted values.'),
+        design_ref='DESIGN.md section 5 C16',
+        note='Trusted: identity of node objects as the notion of "same node"; timing fields of stats are not judged.'),
 }
 
 NOT_YET = 'check not built yet in this session (planned, see DESIGN.md section 5); no claim is made'
